@@ -481,6 +481,18 @@ class Body:
         self.succ
         return self.reachable
 
+    UNMODELLED_ITERATION = ("split_at_mut", "split_at", "split_first_mut", "split_last_mut", "chunks", "chunks_mut", "chunks_exact",
+                            "chunks_exact_mut", "rchunks", "rchunks_mut", "windows", "chain", "scan", "step_by", "flat_map", "fold", "try_fold",
+                            "copy_within", "rotate_left", "rotate_right", "swap_with_slice")
+
+    def unmodelled_iteration(self):
+        """names of slice / iterator constructs in this body whose index arithmetic the desugaring does not model (split
+        slices, chunked walks, chained or folded iterators, in-place block moves). Shape rules that would otherwise report
+        'the expected loop is not there' use this to say undecided instead."""
+        if "_unmodelled" not in self.__dict__:
+            self.__dict__["_unmodelled"] = sorted({fn["name"] for bb, t, fn in self.iter_calls() if fn and fn["name"] in self.UNMODELLED_ITERATION})
+        return self.__dict__["_unmodelled"]
+
     def reachable_from(self, a):
         """blocks reachable from block a (a itself included)"""
         cache = self.__dict__.setdefault("_reach_from", {})
